@@ -246,12 +246,17 @@ def find_anchors(E):
             ctx.broken('C03: anchor member %s::%s of type %s not found (found %s)' % (DATA, name, ty, fields.get(name)))
             return False
     E.data_fields = {f['name']: f for f in data[0].get('fields', [])}
-    threads = [f for f in loop[0].get('fields', []) if f['ct'] == 'std::thread']
+    threads = [(LOOP, f['name']) for f in loop[0].get('fields', []) if f['ct'] == 'std::thread']
+    for f in loop[0].get('fields', []):
+        # the thread may be wrapped in a by-value member of a class of this header (an RAII owner that joins in its destructor)
+        hr = tu.records_by_type.get(f['ct'])
+        if hr is not None and f['ct'] != 'std::thread' and hr.get('q', '').startswith(LOOP + '::'):
+            threads += [(hr['q'], g_['name']) for g_ in hr.get('fields', []) or [] if g_['ct'] == 'std::thread']
     states = [f for f in loop[0].get('fields', []) if f['ct'].startswith('std::shared_ptr<') and DATA in f['ct']]
     if len(threads) != 1 or len(states) != 1:
         ctx.broken('C03: expected exactly one std::thread member and one shared_ptr<AsyncLoopData> member in %s' % LOOP)
         return False
-    E.thread_field = (LOOP, threads[0]['name'])
+    E.thread_field = threads[0]
     E.state_field = (LOOP, states[0]['name'])
     E.ctors = [f for f in tu.fns(q=LOOP + '::AsyncLoop', dep=False) if f.get('ctor') == 'other' and tu.cfg(f) is not None]
     one = {}
@@ -290,6 +295,9 @@ class C03Hooks(Hooks):
         for p, a in zip(cf.get('params', []), args):
             if refs_decl(self.E.tu, sy.unwrap_move(a), self.E.fids):
                 self.E.fids.add(p['id'])
+            pd_ = self.E.tu.node(p['id'])
+            if pd_ is not None and (pd_.get('type', {}).get('qualType') or '').rstrip().endswith('&'):
+                sy.ref_alias[p['id']] = a    # reference parameter: stands for its argument (e.g. the closure handed to a launcher)
             v = sy.int_value(a)              # mask constants handed to flag helpers (test / set / clear)
             if v is not None:
                 sy.consts[p['id']] = v
@@ -482,7 +490,10 @@ def resolve_lambda(tu, sy, e, depth=0):
     if k in ('CXXConstructExpr', 'CXXTemporaryObjectExpr') and len(tu.kids(e)) == 1:
         return resolve_lambda(tu, sy, tu.kids(e)[0], depth + 1)
     if k == 'DeclRefExpr':
-        v = tu.node(e.get('referencedDecl', {}).get('id'))
+        did = e.get('referencedDecl', {}).get('id')
+        if did in sy.ref_alias:
+            return resolve_lambda(tu, sy, sy.ref_alias[did], depth + 1)      # parameter of a followed helper
+        v = tu.node(did)
         if v is not None and v.get('kind') == 'VarDecl' and tu.kids(v):
             return resolve_lambda(tu, sy, tu.kids(v)[-1], depth + 1)
     return None
